@@ -3,6 +3,7 @@ package c08
 
 import (
 	"fmt"
+	"math"
 	"math/rand"
 	"net/url"
 	"strings"
@@ -202,7 +203,7 @@ func (e *env) keys(rng *rand.Rand, n int) {
 }
 
 func body(r *ev.Run) {
-	r.Rule("stores = seeded random histories (pairwise distinct merkle roots; forks at many heights, stale siblings at listed heights, orphans, reorganisations); plus one chain of 2081 blocks (after a reorganisation over 2050 heights) walked with page sizes 1, 499..501, 1000, 1001, 2000, 2001, n-1..n+1, 5000, 10^6; per store: a complete walk for EVERY batch size 1..n+2 (n = longest-chain length), batchSize 0 (must answer 200 or 4xx), every stored merkle root as starting key (longest: the rest of the chain; stale/orphan: 409), unknown keys and near misses of stored roots - upper case, a digit cut or appended, leading zeros cut, 0x-prefixed, byte-reversed - (404), walks with restarts of the service between pages, and walks interleaved with ingestion of 1-3 new tip headers between pages. evaluations = complete walks; distinct = (store index, batch size) walks; non-trivial = store has a stale or orphan header.")
+	r.Rule("stores = seeded random histories (pairwise distinct merkle roots; forks at many heights, stale siblings at listed heights, orphans, reorganisations); plus one chain of 2081 blocks (after a reorganisation over 2050 heights) walked with page sizes 1, 499..501, 1000, 1001, 2000, 2001, n-1..n+1, 5000, 10^6, 2^31-1, 2^31, 2^32, 2^40 (these also on every third store, from the start and from a key in the middle); per store: a complete walk for EVERY batch size 1..n+2 (n = longest-chain length), batchSize 0 (must answer 200 or 4xx), every stored merkle root as starting key (longest: the rest of the chain; stale/orphan: 409), unknown keys and near misses of stored roots - upper case, a digit cut or appended, leading zeros cut, 0x-prefixed, byte-reversed - (404), walks with restarts of the service between pages, and walks interleaved with ingestion of 1-3 new tip headers between pages. evaluations = complete walks; distinct = (store index, batch size) walks; non-trivial = store has a stale or orphan header.")
 	r.Assume("merkle roots pairwise distinct (as the statement requires)", "interleaved ingestion only extends the tip", "SQLite only")
 	r.Require("complete_walks", 300)
 	r.Require("keys_non_longest_409", 20)
@@ -232,7 +233,7 @@ func body(r *ev.Run) {
 		}
 		e := &env{r: r, st: st, m: m, hist: gen.History{}, caseID: "long"}
 		n := len(m.LongestPath())
-		for _, b := range []int{1, 499, 500, 501, 1000, 1001, 2000, 2001, n - 1, n, n + 1, 5000, 1000000} {
+		for _, b := range []int{1, 499, 500, 501, 1000, 1001, 2000, 2001, n - 1, n, n + 1, 5000, 1000000, math.MaxInt32, 1 << 31, 1 << 32, 1<<32 + 7, 1 << 40} {
 			if e.failed {
 				return
 			}
@@ -296,6 +297,20 @@ func body(r *ev.Run) {
 			e.keys(rng, r.Pick(20, 60))
 			if e.failed {
 				return
+			}
+			// page sizes at and beyond the 32-bit limits, from the start and from a key in the middle
+			if i%3 == 0 {
+				path := m.LongestPath()
+				for _, b := range []int{math.MaxInt32 - 1, math.MaxInt32, 1 << 31, 1 << 32, 1<<32 + 1, 1 << 40} {
+					e.walk(b, "", 0, "huge-page-size", nil)
+					if len(path) > 2 && !e.failed {
+						mid := path[len(path)/2]
+						e.walk(b, mid.Merkle.String(), int(mid.Height)+1, "huge-page-size", nil)
+					}
+					if e.failed {
+						return
+					}
+				}
 			}
 			// interleaved walks
 			counter := 1000
